@@ -40,7 +40,15 @@ def get(n, ndef):
                     f"        LOG.append(('B', ({bargs},)))\n        return True\n"
                     f"@dataclass(eq=False)\nclass D_{n}_{ndef}(B_{n}_{ndef}):\n{last}\n    def __call__(self):\n"
                     f"        LOG.append(('D', ({sargs},)))\n        return {body_src(n, 'self.')}\n")
+        # all parameters positional-only; one parameter plus a var-positional rest (and **options)
+        src += f"@symbolic_function\ndef h_{n}_{ndef}({params}, /):\n    LOG.append(('h', ({args},)))\n    return {body_src(n)}\n"
+        if ndef == 0:
+            src += (f"@symbolic_function\ndef w_{n}_{ndef}(p1, *rest, **options):\n    LOG.append(('w', (p1,) + rest))\n"
+                    f"    return (p1 + sum((i + 2) * r for i, r in enumerate(rest))) % 3 != 0\n")
         exec(src, NS)
+        FUNS[key + ("posonly",)] = NS[f"h_{n}_{ndef}"]
+        if ndef == 0:
+            FUNS[key + ("varargs",)] = NS[f"w_{n}_{ndef}"]
         FUNS[key], PREDS[key] = NS[f"f_{n}_{ndef}"], NS[f"P_{n}_{ndef}"]
         FUNS[key + ("int",)] = NS[f"g_{n}_{ndef}"]
         if n >= 2:
@@ -53,7 +61,13 @@ def handle(case):
     f, P = get(n, ndef)
     out = {}
     kinds = [("function", f), ("predicate", P), ("function_int", FUNS[(n, ndef, "int")])]
-    if n >= 2 and not (ndef >= 1 and ndef < 1):
+    style = case.get("style", "plain")
+    if style != "plain":
+        kinds = [("function", FUNS[(n, ndef, style)])]
+    elif vs:
+        # the same call as a later condition: every variable is already bound (by v >= 0) when the call is evaluated
+        kinds += [("function_after_binding", f), ("predicate_after_binding", P)]
+    if style == "plain" and n >= 2 and not (ndef >= 1 and ndef < 1):
         try:
             # the base predicate is used first (concretely), then the derived one with the call shape under test
             PREDS[(n, ndef, "base")](*[i for i in range(1, n)])()
@@ -61,7 +75,7 @@ def handle(case):
         except Exception:
             pass
     for kind, target in kinds:
-        V = {i: let(int, [1, 2, 3], name=f"v{i}") for i in vs}
+        V = {i: let(int, [0, 1, 2], name=f"v{i}") for i in vs}
         val = lambda i: V[i] if i in V else i
         args = [val(i) for i in range(1, np_ + 1)]
         kwargs = {f"p{i}": val(i) for i in kw}
@@ -81,7 +95,10 @@ def handle(case):
             else:
                 del LOG[:]
                 order = sorted(V)
-                if len(order) == 1:
+                if kind.endswith("_after_binding"):
+                    q = an(set_of([V[i] for i in order], *[V[i] >= 0 for i in order], r))
+                    sols = [[row[V[i]] for i in order] for row in q.evaluate()]
+                elif len(order) == 1:
                     q = an(entity(V[order[0]], r))
                     sols = [[x] for x in q.evaluate()]
                 else:
